@@ -214,8 +214,10 @@ func (m *Mem) Do(req *http.Request) (*http.Response, error) {
 			m.mu.Unlock()
 		}()
 		defer close(ex.done)
+		returned := false
 		defer func() {
-			if r := recover(); r != nil {
+			// (not "if r := recover(); r != nil": panic(nil) must be seen too)
+			if r := recover(); !returned {
 				ex.mu.Lock()
 				ex.Panicked, ex.PanicValue = true, r
 				ex.mu.Unlock()
@@ -227,6 +229,7 @@ func (m *Mem) Do(req *http.Request) (*http.Response, error) {
 			}
 		}()
 		m.Handler.ServeHTTP(&memRW{st: st}, sreq)
+		returned = true
 		st.finish()
 	}()
 
